@@ -28,7 +28,8 @@ func init() {
 		NeedSSA:  true,
 		Explanation: "Decides one necessary clause of deletion safety: the use-graph walkers of U1000 visit every child of every syntax node kind they handle that can contain an identifier. For each `case *ast.T` clause of the walkers (methods of graph that type-switch over a go/ast interface, found structurally), every field of T whose type is an AST child (Expr, Stmt, Decl, Spec, Node, pointers to node structs, slices of those) must be mentioned in the clause or in the graph method the node is delegated to (R7.1); " +
 			"the walkers' type switches end in the exhaustiveness panic, so an unknown kind cannot be skipped silently (R7.2); for the second bracket — every zero-reference object is reported — two necessary conditions are decided: every declared constant, variable, named type and function is registered in the graph (g.see) for every declared name on every path (R7.3), and Results puts every node into exactly one of Used/Quiet/Unused (R7.4). An identifier below an unvisited child is never marked used, so an object referenced only there is reported although deleting it breaks the build. " +
-			"It does NOT decide the rule list 1.1–12.1 as semantics or interface satisfaction.",
+			"It does NOT decide the rule list 1.1–12.1 as semantics or interface satisfaction." +
+			" Also decided: records found in types.Info.Selections are handed to the function that marks the implicit embedded-field path on every path (method expressions included), and that function marks every field of the path and the selected object.",
 		RuleText:    "obligation = (walker, node type, child field); decided on the type-checked AST (field types from go/ast's struct definitions, mentions resolved through types.Info)",
 		Assumptions: []string{"go/ast's field types describe where identifiers can occur", "*ast.BasicLit, *ast.CommentGroup and token positions cannot contain identifiers"},
 		Run:         runC07,
